@@ -299,6 +299,7 @@ package cli
 // firstSub: the first declared subcommand having tok among its aliases (nil when there is none)
 //@ pure rec func firstSubFrom(c *Cmd, tok string, i int, SUBS array[*Cmd][]*Cmd, AL array[*Cmd][]string) *Cmd =
 //@     (i < 0 || i >= len(SUBS[c])) ? nil : (aliasOf(SUBS[c][i], tok, AL) ? SUBS[c][i] : firstSubFrom(c, tok, i+1, SUBS, AL))
+//@ pure func noRunIn(t trace, a int, b int) bool = forall j int :: {t[j]} a <= j && j < b ==> !isMark(t[j], "Run")
 //@ pure func noRun(t0 trace, t trace) bool = len(t) >= len(t0) && (forall i int :: {t[i]} len(t0) <= i && i < len(t) ==> !isMark(t[i], "Run"))
 
 // --- Cmd.parse (C04, C05, C07, C14): one level; the recursive call is covered by this same contract -----------------------
@@ -347,6 +348,9 @@ package cli
 //@       trace[callEnd("Parse", p0)] == evMark("doInit", firstSubFrom(c, args[k], 0, old(fieldHeap(c.commands)), old(fieldHeap(c.aliases))))
 //@   ensures no-illegal-input-tail: h < 0 && callOK("Parse", p0) && k < len(args) ==> !isMark(trace[len(trace)-1], "onError") || len(trace) > callEnd("Parse", p0) + 1
 //@   ensures no-action-no-run: h < 0 && callOK("Parse", p0) && k == len(args) && old(c.Action) == nil ==> result == nil && noRun(old(trace), trace)
+//@   ensures first-run-is-the-entry: forall i int :: {trace[i]} p0 <= i && i < len(trace) && isMark(trace[i], "Run") && noRunIn(trace, p0, i) ==>
+//@       trace[i] == evMark("Run", entry) &&
+//@       (h < 0 && callOK("Parse", p0) && k == len(args) && old(c.Action) != nil ==> trace[callEnd("Parse", p0)] == evMark("Run", entry) && i == callEnd("Parse", p0))
 //@   panics never-the-impossible-case: ownPanic() ==> !isType(panicval, "string")
 //@   loop 1 invariant scan: forall i int :: 0 <= i && i < $k ==> !aliasOf(c.commands[i], args0[k], fieldHeap(c.aliases))
 //@   loop 2 invariant tried: forall i int :: 0 <= i && i < $k ==> !aliasOf(c.commands[i], arg, fieldHeap(c.aliases))
